@@ -712,20 +712,48 @@ Section TableDomain.
   (* ================= theorems for ALL catalog entries (since d16ce3d) ================= *)
   Notation build' := (build pw canon gl).
 
-  (* (1) every emitted command is accepted by NewTable on its own, and is one line *)
+  Lemma validate_intent_inv i : validate_intent pw canon gl i = true ->
+    validate pw canon gl (render_intent i) = true
+    /\ lacks 34 (join (i_tags i) [44]) = true /\ lacks 34 (join (i_opts i) sp) = true
+    /\ exists d, parse pw (render_intent i) = Ok [d]
+                 /\ d_svc d = i_svc i /\ d_src d = i_route i /\ d_dst d = i_dst i.
+  Proof.
+    unfold validate_intent, validate_cmd, validate, reads_back. intros H.
+    repeat (apply andb_true_iff in H as [H ?]).
+    split; [now rewrite H, H0|]. split; [exact H3|]. split; [exact H2|].
+    destruct (parse pw (render_intent i)) as [[|d [|? ?]]| |]; try discriminate.
+    exists d. split; [reflexivity|]. repeat (apply andb_true_iff in H1 as [H1 ?]).
+    apply beq_eq in H1, H4, H5. auto.
+  Qed.
+
+  (* (1) every emitted command is accepted by NewTable on its own, is one line, and (since
+     9891ca3) reads back as the service, route and destination it was made from *)
   Theorem emitted_accepted_alone env prefix g c : In c (build' env prefix g) ->
     is_ok (new_table pw canon gl c) = true /\ lacks 10 c = true /\ lacks 13 c = true
     /\ exists i, In i (intents env prefix g) /\ c = render_intent i.
   Proof.
-    unfold build. intros H. apply filter_In in H as [Hin Hv]. apply in_map_iff in Hin as (i & <- & Hi).
+    unfold build. intros H. apply in_map_iff in H as (i & <- & Hi). apply filter_In in Hi as [Hi Hv].
+    apply validate_intent_inv in Hv as (Hv & _).
     split; [unfold validate in Hv; now apply andb_true_iff in Hv as [_ Hv]|].
     split; [now apply (validate_lacks 10); auto|]. split; [now apply (validate_lacks 13); auto|]. eauto.
   Qed.
 
+  Theorem emitted_reads_back env prefix g c : In c (build' env prefix g) ->
+    exists i d, In i (intents env prefix g) /\ c = render_intent i /\ parse pw c = Ok [d]
+                /\ d_svc d = g_name g /\ d_src d = i_route i /\ d_dst d = i_dst i.
+  Proof.
+    unfold build. intros H. apply in_map_iff in H as (i & <- & Hi). apply filter_In in Hi as [Hi Hv].
+    apply validate_intent_inv in Hv as (_ & _ & _ & d & Hp & H1 & H2 & H3).
+    exists i, d. repeat split; auto.
+    unfold intents in Hi. apply in_flat_map in Hi as (tag & _ & Hi). unfold intent_of_tag in Hi.
+    destruct (parse_url_prefix_tag env prefix tag) as [[r o]|]; [|destruct Hi].
+    destruct (fold_left _ _ _) as [[dst w] ro]. destruct Hi as [<-|[]]. exact H1.
+  Qed.
+
   Lemma emitted_good env prefix g c : In c (build' env prefix g) -> good_line c.
   Proof.
-    unfold build. intros H. apply filter_In in H as [Hin Hv]. apply in_map_iff in Hin as (i & <- & Hi).
-    now apply validate_good_line.
+    unfold build. intros H. apply in_map_iff in H as (i & <- & Hi). apply filter_In in Hi as [Hi Hv].
+    apply validate_intent_inv in Hv as (Hv & _). now apply validate_good_line.
   Qed.
 
   Lemma in_insert_line x y l : In x (insert_line_desc y l) <-> x = y \/ In x l.
@@ -827,11 +855,156 @@ Section TableDomain.
     - enough (existsb (N.eqb 10) (render_intent i) = true) by congruence. apply existsb_exists. now exists 10.
   Qed.
 
+  Lemma expr_parse i : ex i = true ->
+    exists d, intent_def pw i = Ok d /\ parse pw (render_intent i) = Ok [d].
+  Proof.
+    intros H. destruct (render_parse_line pw canon gl i H) as (d & Hd & Hp & He). exists d. split; [exact Hd|].
+    unfold parse. rewrite split_lacks by (now apply render_lacks_nl with (pw := pw) (canon := canon) (gl := gl)).
+    cbn [parse_lines]. rewrite drop_cr_id by assumption. rewrite Hp. reflexivity.
+  Qed.
+
+  (* ... also by the read-back check of 9891ca3 *)
+  Theorem expressible_validates_intent i : ex i = true -> validate_intent pw canon gl i = true.
+  Proof.
+    intros H. pose proof (expressible_validates i H) as Hv.
+    destruct (expr_inv pw canon gl i H) as (Hs & Hr & Hg & Hh & Hdst & Hc & Hw & Ht & Ho).
+    destruct (expr_parse i H) as (d & Hd & Hp).
+    destruct (intent_def_fields pw i d Hd) as (_ & F1 & F2 & F3 & _).
+    unfold validate_intent, validate_cmd, reads_back. unfold validate in Hv. apply andb_true_iff in Hv as [Hv1 Hv2].
+    rewrite Hv1, Hv2, Hp, F1, F2, F3, !beq_refl. cbn [andb]. rewrite !andb_true_r.
+    apply andb_true_iff. split.
+    - pose proof (owf_topt _ Ht) as Hq. destruct (i_tags i) as [|t ts] eqn:E; [reflexivity|].
+      exact (Hq _ eq_refl).
+    - pose proof (owf_oopt _ Ho) as Hq. destruct (i_opts i) as [|o os] eqn:E; [reflexivity|].
+      exact (Hq _ eq_refl).
+  Qed.
+
   Theorem build_expressible env prefix g : expressible pw canon gl env prefix g = true ->
     build' env prefix g = map render_intent (intents env prefix g).
   Proof.
-    intros H. unfold build. apply filter_all_true. intros c Hc. apply in_map_iff in Hc as (i & <- & Hi).
-    unfold expressible in H. rewrite forallb_forall in H. now apply expressible_validates, H.
+    intros H. unfold build. f_equal. apply filter_all_true. intros i Hi.
+    unfold expressible in H. rewrite forallb_forall in H. now apply expressible_validates_intent, H.
+  Qed.
+
+  (* ---- which commands validate lets through: the converse of expressible_validates_intent ---- *)
+  Lemma span_fst_all (p : N -> bool) s : forallb p (fst (span p s)) = true.
+  Proof.
+    induction s as [|c s IH]; cbn [span]; [reflexivity|]. destruct (p c) eqn:E; [|reflexivity].
+    destruct (span p s) as [a b]. cbn [fst forallb] in *. now rewrite E, IH.
+  Qed.
+
+  Lemma tok_word_out s t r : tok s = Some (t, r) -> t <> [] /\ forallb ns t = true.
+  Proof.
+    unfold tok. pose proof (span_fst_all (fun c => negb (re_space c)) s) as H.
+    destruct (span (fun c => negb (re_space c)) s) as [a b]. cbn [fst] in H.
+    destruct a; [discriminate|]. intros E. inversion E; subst. split; [discriminate | exact H].
+  Qed.
+
+  Lemma parse_route_add_words z d : parse_route_add pw z = Ok d ->
+    (d_svc d <> [] /\ forallb ns (d_svc d) = true) /\ (d_src d <> [] /\ forallb ns (d_src d) = true)
+    /\ (d_dst d <> [] /\ forallb ns (d_dst d) = true).
+  Proof.
+    unfold parse_route_add, match_add, obind.
+    destruct (ws1 z) as [r0|]; [|discriminate]. destruct (tok r0) as [[svc r1]|] eqn:T1; [|discriminate].
+    destruct (ws1 r1) as [r2|]; [|discriminate]. destruct (tok r2) as [[src r3]|] eqn:T2; [|discriminate].
+    destruct (ws1 r3) as [r4|]; [|discriminate]. destruct (tok r4) as [[dst r5]|] eqn:T3; [|discriminate].
+    destruct (opt_group _ r5) as [w r6]. destruct (opt_group _ r6) as [tg r7]. destruct (opt_group _ r7) as [op r8].
+    destruct (at_end r8); [|discriminate]. destruct (parse_weight pw w); try discriminate.
+    intros H; inversion H; subst d. cbn [mk d_svc d_src d_dst].
+    split; [exact (tok_word_out _ _ _ T1)|]. split; [exact (tok_word_out _ _ _ T2) | exact (tok_word_out _ _ _ T3)].
+  Qed.
+
+  Lemma wordre_go t : t <> [] -> forallb ns t = true -> lacks 11 t = true -> word_ok t = true.
+  Proof.
+    intros Hne Hns Hv. unfold word_ok. destruct t as [|c t]; [congruence|]. cbn [nonempty andb].
+    unfold space_free. apply negb_true_iff. destruct (existsb go_space (c :: t)) eqn:E; auto.
+    apply existsb_exists in E as (x & Hx & Ex). rewrite forallb_forall in Hns. specialize (Hns x Hx).
+    unfold ns in Hns. apply negb_true_iff in Hns. unfold go_space in Ex. rewrite Hns in Ex. cbn [orb] in Ex.
+    apply N.eqb_eq in Ex. subst x. unfold lacks in Hv. apply negb_true_iff in Hv.
+    enough (existsb (N.eqb 11) (c :: t) = true) by congruence. apply existsb_exists. now exists 11.
+  Qed.
+
+  Lemma lacks_join_inv c sep ts : lacks c (join ts sep) = true -> forallb (lacks c) ts = true.
+  Proof.
+    induction ts as [|t ts IH]; intros H; [reflexivity|]. destruct ts as [|t2 ts].
+    - cbn [join] in H. cbn [forallb]. now rewrite H.
+    - change (join (t :: t2 :: ts) sep) with (t ++ sep ++ join (t2 :: ts) sep) in H.
+      rewrite !lacks_app in H. apply andb_true_iff in H as [Ht H]. apply andb_true_iff in H as [_ H].
+      cbn [forallb]. rewrite Ht. cbn [andb]. exact (IH H).
+  Qed.
+
+  (* a command that validate lets through, made from a well-formed intent (what build makes: the
+     weight and the options are Fields tokens, the tags are trimmed), comes from an expressible
+     registration -- or has a comma in a tag, or a sole empty tag (finding F-C14-2, region
+     F_C14_altering), or a vertical tab in the name / route / destination (harmless) *)
+  Theorem validated_characterised i : intent_wf i = true -> validate_intent pw canon gl i = true ->
+    ex i = true \/ comma_in_tag i = true \/ sole_empty_tag i = true \/ vtab_in_word i = true.
+  Proof.
+    intros Hwf Hval.
+    destruct (vtab_in_word i) eqn:Ev; [auto|]. destruct (comma_in_tag i) eqn:Ec; [auto|].
+    destruct (sole_empty_tag i) eqn:Ee; [auto|]. left.
+    destruct (validate_intent_inv i Hval) as (Hv & Hq1 & Hq2 & d & Hp & F1 & F2 & F3).
+    destruct (validate_good_line i Hv) as (Hnl & Hcr & d' & Hd' & Ha).
+    assert (d' = d).
+    { unfold parse in Hp. rewrite split_lacks in Hp by exact Hnl. cbn [parse_lines] in Hp.
+      rewrite drop_cr_lacks, Hd' in Hp by exact Hcr. cbn [bind] in Hp. now inversion Hp. }
+    subst d'.
+    (* the three arguments are words *)
+    destruct (render_starts i) as (rest & E). destruct (parse_line_route_add rest) as (z & Hz).
+    rewrite <- E, Hd' in Hz.
+    destruct (parse_route_add pw z) as [d0| |] eqn:Ez; cbn [bind] in Hz; try discriminate.
+    inversion Hz; subst d0. clear Hz.
+    destruct (parse_route_add_words z d Ez) as ((N1 & W1) & (N2 & W2) & (N3 & W3)).
+    rewrite F1 in N1, W1. rewrite F2 in N2, W2. rewrite F3 in N3, W3.
+    unfold vtab_in_word in Ev. apply negb_true_iff in Ev. change (lacks 11 (i_svc i ++ i_route i ++ i_dst i) = true) in Ev.
+    rewrite !lacks_app in Ev. apply andb_true_iff in Ev as [V1 Ev]. apply andb_true_iff in Ev as [V2 V3].
+    pose proof (wordre_go _ N1 W1 V1) as Hs. pose proof (wordre_go _ N2 W2 V2) as Hr. pose proof (wordre_go _ N3 W3 V3) as Hdst.
+    unfold intent_wf in Hwf. apply andb_true_iff in Hwf as [Hwf Htr]. apply andb_true_iff in Hwf as [Hws Hwo].
+    assert (Ow : owf word_ok (wopt (i_weight i))).
+    { intros x Hx. destruct (i_weight i) as [|c w]; [discriminate|]. inversion Hx; subst x. unfold word_ok. now rewrite Hws. }
+    assert (Ot : owf no_quote (topt (i_tags i))).
+    { intros x Hx. destruct (i_tags i) as [|t ts] eqn:Et; [discriminate|]. unfold topt in Hx. injection Hx as <-. exact Hq1. }
+    assert (Oo : owf no_quote (oopt (i_opts i))).
+    { intros x Hx. destruct (i_opts i) as [|o os] eqn:Eo; [discriminate|]. unfold oopt in Hx. injection Hx as <-. exact Hq2. }
+    (* the weight literal is accepted *)
+    pose proof Hd' as Hline. rewrite render_is_line, parse_line_of in Hline by assumption.
+    assert (Hw : weight_ok pw (i_weight i) = true).
+    { destruct (i_weight i) as [|c w] eqn:Ew; [reflexivity|]. cbn [weight_ok]. rewrite Hws. cbn [andb].
+      cbn [wopt parse_weight] in Hline. destruct (pw (c :: w)); [reflexivity | discriminate | discriminate]. }
+    (* addRoute's checks *)
+    destruct Ha as (_ & _ & _ & Hc & Hg & Hh). rewrite F2 in Hg, Hh. rewrite F3 in Hc.
+    (* tags *)
+    assert (Ht : tags_ok (i_tags i) = true).
+    { assert (Hall : forallb tag_cond (i_tags i) = true).
+      { apply forallb_forall. intros t Hin. unfold tag_cond.
+        pose proof (lacks_join_inv 34 [44] _ Hq1) as Q. rewrite forallb_forall in Q.
+        rewrite forallb_forall in Htr.
+        assert (Hnc : no_comma t = true).
+        { unfold no_comma. apply negb_true_iff. destruct (existsb (N.eqb 44) t) eqn:E44; auto.
+          unfold comma_in_tag in Ec. enough (existsb (fun t => existsb (N.eqb 44) t) (i_tags i) = true) by congruence.
+          apply existsb_exists. now exists t. }
+        assert (Hl : forall c, lacks c (render_intent i) = true -> lacks c t = true).
+        { intros c Hc0. rewrite render_is_line in Hc0. unfold line_of in Hc0.
+          destruct (i_tags i) as [|t0 ts0] eqn:Et; [destruct Hin|]. rewrite <- Et in *.
+          assert (Hj : lacks c (join (i_tags i) [44]) = true).
+          { rewrite Et in Hc0 at 1. cbn [topt Tq] in Hc0. rewrite <- Et in Hc0.
+            change (34 :: join (i_tags i) [44] ++ [34]) with ([34] ++ join (i_tags i) [44] ++ [34]) in Hc0.
+            change (32 :: i_route i ++ 32 :: i_dst i ++ ?x) with ([32] ++ i_route i ++ [32] ++ i_dst i ++ x) in Hc0.
+            rewrite !lacks_app in Hc0. repeat (apply andb_true_iff in Hc0 as [? Hc0]).
+            apply andb_true_iff in H7 as [_ H7]. apply andb_true_iff in H7 as [H7 _]. exact H7. }
+          pose proof (lacks_join_inv c [44] _ Hj) as Q2. rewrite forallb_forall in Q2. now apply Q2. }
+        rewrite (Q t Hin), Hnc. change (no_quote t) with (lacks 34 t). rewrite (Q t Hin).
+        change (no_nl t) with (lacks 10 t). change (no_cr t) with (lacks 13 t).
+        rewrite (Hl 10 Hnl), (Hl 13 Hcr), (Htr t Hin). reflexivity. }
+      destruct (i_tags i) as [|t [|t2 r]] eqn:Et; [reflexivity| |exact Hall].
+      destruct t; [unfold sole_empty_tag in Ee; rewrite Et in Ee; discriminate | exact Hall]. }
+    (* options *)
+    assert (Ho : opts_ok (i_opts i) = true).
+    { unfold opts_ok. apply forallb_forall. intros o Hin.
+      pose proof (lacks_join_inv 34 sp _ Hq2) as Q. rewrite forallb_forall in Q, Hwo.
+      rewrite (Hwo o Hin). change (no_quote o) with (lacks 34 o). now rewrite (Q o Hin). }
+    unfold ex, expr, intent_expressible. rewrite Hs, Hr, Hg, Hh, Hdst, Hw, Ht, Ho.
+    destruct Hc as [u ->]. reflexivity.
   Qed.
 
   (* (1) for an expressible catalog entry: every routing tag yields a command (none is dropped),
@@ -989,7 +1162,9 @@ Definition ex_build : reg -> list str := build pweight_dec idcanon anyglob env_d
 Definition ex_text (regs : list reg) : str := config_text (sort_lines_desc (flat_map ex_build regs)).
 Definition ex_table (regs : list reg) : outcome table := new_table pweight_dec idcanon anyglob (ex_text regs).
 Definition ex_intents : reg -> list intent := intents env_dc pfx.
-Definition ex_altering : intent -> bool := F_C14_altering pweight_dec idcanon anyglob.
+Definition ex_altering : intent -> bool := F_C14_altering.
+Definition ex_build_d16ce3d : reg -> list str := build_d16ce3d pweight_dec idcanon anyglob env_dc pfx.
+Definition ex_unread : intent -> bool := F_C14_unread_d16ce3d pweight_dec idcanon anyglob.
 
 Definition ex_build_unrepaired : reg -> list str := build_unrepaired all_print env_dc pfx.
 Definition ex_text_unrepaired (regs : list reg) : str := config_text (sort_lines_desc (flat_map ex_build_unrepaired regs)).
@@ -1055,14 +1230,37 @@ Theorem sole_empty_tag_lost_refuted :
   /\ existsb ex_altering (ex_intents reg_empty_tag) = true.
 Proof. repeat split; vm_compute; reflexivity. Qed.
 
-(* ... and a service name with a blank at an end is accepted under another name *)
-Theorem name_blank_altered_refuted :
-  g_name reg_name_blank = bs "svc "
-  /\ (match ex_build reg_name_blank with
-      | [c] => match parse pweight_dec c with Ok ds => Ok (map d_svc ds) | Err k => Err k | Panic => Panic end
-      | _ => Err 0
-      end) = Ok [bs "svc"]
-  /\ existsb ex_altering (ex_intents reg_name_blank) = true.
+(* ---- the code between d16ce3d and 9891ca3: accepted by the table, never read back (finding
+        F-C14-4, repaired by 9891ca3) ---- *)
+Definition reg_inject : reg :=
+  mkreg "victim victim.com/ http://evil:80/" "10.0.0.2" 80 [bs "urlprefix-weight redirect=301,1"].
+Definition reg_inject_tag : reg :=
+  mkreg "bad" "10.0.0.2" 80 [bs "urlprefix-/bad"; bs "a"" opts ""strip=/x"].
+
+Definition parsed_defs (cmds : list str) : outcome (list (str * str * str * list str * list (str * str))) :=
+  match cmds with
+  | [c] => match parse pweight_dec c with
+           | Ok ds => Ok (map (fun d => (d_svc d, d_src d, d_dst d, d_tags d, d_opts d)) ds)
+           | Err k => Err k | Panic => Panic
+           end
+  | _ => Err 0
+  end.
+
+(* a service name whose extra words complete the grammar: the command was accepted and denoted
+   ANOTHER service, route and destination; a quote in a plain tag started an opts clause; a blank
+   at the end of the name changed the name.  Since 9891ca3 all three are dropped. *)
+Theorem name_injection_d16ce3d_refuted :
+  g_name reg_inject = bs "victim victim.com/ http://evil:80/"
+  /\ parsed_defs (ex_build_d16ce3d reg_inject)
+     = Ok [(bs "victim", bs "victim.com/", bs "http://evil:80/", [], [(bs "redirect", bs "301")])]
+  /\ existsb ex_unread (ex_intents reg_inject) = true
+  /\ parsed_defs (ex_build_d16ce3d reg_inject_tag)
+     = Ok [(bs "bad", bs "/bad", bs "http://10.0.0.2:80/", [bs "a"], [(bs "strip", bs "/x")])]
+  /\ existsb ex_unread (ex_intents reg_inject_tag) = true
+  /\ parsed_defs (ex_build_d16ce3d reg_name_blank)
+     = Ok [(bs "svc", bs "/bad", bs "http://10.0.0.2:80/", [], [])]
+  /\ existsb ex_unread (ex_intents reg_name_blank) = true
+  /\ ex_build reg_inject = [] /\ ex_build reg_inject_tag = [] /\ ex_build reg_name_blank = [].
 Proof. repeat split; vm_compute; reflexivity. Qed.
 
 (* ---- the code before d16ce3d (findings F-C14-1 and the wider F-C14-2, now repaired) ---- *)
